@@ -513,6 +513,29 @@ Definition po_fn_add2 (k1 k2 : string) (v : json) (body : json) : res json :=
   | _ => ErrType
   end.
 
+(* def f(body):
+       s = body.get(src)
+       if isinstance(s, dict) and key in s:
+           body.setdefault(dst, {})[key] = s.pop(key)          # the right-hand side is evaluated first *)
+Definition po_fn_move (src dst key : string) (body : json) : res json :=
+  match body with
+  | JObj kvs =>
+      match lookup src kvs with
+      | Some (JObj s) =>
+          match lookup key s with
+          | Some v =>
+              let kvs1 := set src (JObj (del key s)) kvs in
+              match (match lookup dst kvs1 with Some d => d | None => JObj [] end) with
+              | JObj d => Ok (JObj (set dst (JObj (set key v d)) kvs1))
+              | _ => ErrType
+              end
+          | None => Ok body
+          end
+      | _ => Ok body
+      end
+  | _ => ErrType
+  end.
+
 (* def f(body): raise TypeError *)
 Definition po_fn_raise (body : json) : res json := ErrType.
 
